@@ -6,6 +6,7 @@ equations that need continuation lines, occasionally dozens of variables.
 
 An expression is a JSON-able list:
   ["int", n] | ["dec", "0.25"] | ["var", name, offset] | ["neg", x] | ["bin", op, x, y] | ["fn1", f, x] | ["fn2", f, x, y]
+  | ["fnv", f, [x1, x2, x3, ...]]   (max / min with three or more arguments; `fold` reads it as nested binary calls)
 with op in add/sub/mul/div/pow, f in exp/log/abs resp. max/min.
 
 `kind_of` / `unsafe_features` are the harness's own reading of Fortran's typing rules (integer, real(4), real(8));
@@ -69,9 +70,39 @@ def dec_exact4(text):
 
 
 # ---------------------------------------------------------------------------------------------------------------
+# arity: max / min take any number (>= 2) of arguments in Python and in Fortran
+
+def fold(e):
+    """The expression with every n-ary max/min (n >= 3) read as the left fold of the binary one:
+    max(a, b, c) = max(max(a, b), c) — the same value in both languages on finite numbers, and the same Fortran
+    typing verdict (all arguments must be of one type).  The typing functions below and the Lean model work on the
+    folded tree; the script text keeps the n-ary call."""
+    k = e[0]
+    if k in ('int', 'dec', 'var'):
+        return e
+    if k == 'neg':
+        return ['neg', fold(e[1])]
+    if k == 'bin':
+        return ['bin', e[1], fold(e[2]), fold(e[3])]
+    if k == 'fn1':
+        return ['fn1', e[1], fold(e[2])]
+    if k == 'fn2':
+        return ['fn2', e[1], fold(e[2]), fold(e[3])]
+    if k == 'fnv':
+        args = [fold(a) for a in e[2]]
+        acc = ['fn2', e[1], args[0], args[1]]
+        for a in args[2:]:
+            acc = ['fn2', e[1], acc, a]
+        return acc
+    raise AssertionError(e)
+
+
+# ---------------------------------------------------------------------------------------------------------------
 # Fortran typing of an expression
 
 def kind_of(e):
+    if e[0] == 'fnv':
+        return kind_of(fold(e))
     k = e[0]
     if k == 'int':
         return 'int'
@@ -101,6 +132,8 @@ def kind_of(e):
 
 
 def int_val(e):
+    if e[0] == 'fnv':
+        return int_val(fold(e))
     """Exact value of an integer-kind constant expression under Fortran integer arithmetic (unbounded), or None."""
     k = e[0]
     if k == 'int':
@@ -147,6 +180,8 @@ def unsafe_features(e, out=None):
     """Set of reasons why the expression is outside the fragment on which Fortran and Python must agree exactly.
     Keys are the finding keys (or 'powi' = real ** integer, which differs only by rounding)."""
     out = set() if out is None else out
+    if e[0] == 'fnv':
+        return unsafe_features(fold(e), out)
     k = e[0]
     if k == 'int':
         if not (-2 ** 31 <= e[1] <= 2 ** 31 - 1):
@@ -199,6 +234,8 @@ def unsafe_features(e, out=None):
 
 
 def uses_libm(e):
+    if e[0] == 'fnv':
+        return any(uses_libm(a) for a in e[2])
     k = e[0]
     if k in ('int', 'dec', 'var'):
         return False
@@ -223,6 +260,9 @@ def variables(e, out=None):
         variables(e[3], out)
     elif k == 'fn1':
         variables(e[2], out)
+    elif k == 'fnv':
+        for a in e[2]:
+            variables(a, out)
     return out
 
 
@@ -267,6 +307,8 @@ def render(e, env, rng=None, prec=0, loose=False):
         return f'{e[1]}({render(e[2], env, rng, 0, loose)})'
     if k == 'fn2':
         return f'{e[1]}({render(e[2], env, rng, 0, loose)}, {render(e[3], env, rng, 0, loose)})'
+    if k == 'fnv':
+        return f"{e[1]}({', '.join(render(a, env, rng, 0, loose) for a in e[2])})"
     raise AssertionError(e)
 
 
@@ -354,7 +396,14 @@ class Gen:
         if c < 0.68:
             return ['bin', 'mul', ['neg', self.coef()], sub()]
         if c < 0.76:
-            return ['fn2', r.choice(['max', 'min']), sub(), sub() if r.random() < 0.6 else self.exact_dec()]
+            f = r.choice(['max', 'min'])
+            if r.random() < 0.35:   # three or four arguments
+                args = [sub()] + [sub() if r.random() < 0.6 else self.exact_dec() for _ in range(r.choice([2, 2, 3]))]
+                r.shuffle(args)
+                if all(a[0] == 'dec' for a in args):
+                    args[0] = sub()
+                return ['fnv', f, args]
+            return ['fn2', f, sub(), sub() if r.random() < 0.6 else self.exact_dec()]
         if c < 0.82:
             return ['fn1', 'abs', sub()]
         if c < 0.86:  # integer-constant subexpression next to a real(8) operand
